@@ -41,7 +41,7 @@ META = {
     'decided': ['D1 ownership of the export table; answers cached by the call '
                 'handler are reset wholesale whenever the table changes',
                 'D2 one announcement per export / unexport',
-                'D3 descendants are selected hierarchically',
+                'D3 descendants are selected hierarchically; both reporters take the properties of every interface from getAllProperties, which leaves out a readable property only if it was collected already (C17.D1/D4 re-reported)',
                 'D4 immediate children (each listed once: de-duplicated '
                 'against the whole list) / no-such-path'],
     'undecided': ['exactness over histories of export and unexport'],
@@ -124,10 +124,88 @@ def run(ctx):
         ctx, 'C16.D1', ('objects',),
         'objects exported on one connection are visible on, and removed '
         'from, every other connection of the process')
+    reported_properties(ctx)
     ctx.floor('C16.D1', 3)
     ctx.floor('C16.D2', 6)
     ctx.floor('C16.D3', 2)
     ctx.floor('C16.D4', 3)
+
+
+def reported_properties(ctx):
+    """"each with all its interfaces and readable properties": both
+    reporters (GetManagedObjects, the InterfacesAdded announcement) take an
+    object's properties from getAllProperties(<interface name>) for every
+    interface, and getAllProperties collects every readable property (the
+    GetAll clauses of C17.D1/D4, re-reported here)."""
+    prog = ctx.prog
+    def with_helpers(fi):
+        # the reporter and the methods of its class it calls through self
+        # (a refactoring may have moved the loop into a shared helper)
+        out, work = [], [fi]
+        while work and len(out) < 8:
+            f = work.pop()
+            if f in out:
+                continue
+            out.append(f)
+            for n in prog._iter_scope(f.node):
+                if isinstance(n, ast.Call) and \
+                        isinstance(n.func, ast.Attribute) and \
+                        isinstance(n.func.value, ast.Name) and \
+                        n.func.value.id in ('self', 'cls') and f.cls:
+                    t = prog.lookup_method(f.cls, n.func.attr)
+                    if t is not None:
+                        work.append(t)
+        return out
+    for q in (H + '.getManagedObjects', H + '.exportObject'):
+        fi = prog.func(q)
+        ok = False
+        for n in [x for f in with_helpers(fi)
+                  for x in prog._iter_scope(f.node)]:
+            if isinstance(n, (ast.For, ast.comprehension)) and any(
+                    isinstance(x, ast.Attribute) and
+                    x.attr == 'getInterfaces' for x in ast.walk(n.iter)):
+                tv = {x.id for x in ast.walk(n.target)
+                      if isinstance(x, ast.Name)}
+                body = n.body if isinstance(n, ast.For) else [
+                    p_ for f in with_helpers(fi) for p_ in ast.walk(f.node)
+                    if isinstance(p_, (ast.DictComp, ast.ListComp)) and
+                    n in p_.generators]
+                for st in body:
+                    for c in ast.walk(st):
+                        if isinstance(c, ast.Call) and \
+                                isinstance(c.func, ast.Attribute) and \
+                                c.func.attr == 'getAllProperties' and \
+                                c.args and any(
+                                    isinstance(x, ast.Name) and x.id in tv
+                                    for x in ast.walk(c.args[0])):
+                            ok = True
+        ctx.ob('C16.D3' if q.endswith('getManagedObjects') else 'C16.D2', q,
+               'properties-of-every-interface', ok,
+               '%s must report getAllProperties(<name>) for every interface '
+               'the object implements' % q.split('.')[-1])
+    from . import c17
+
+    class _Sub:
+        tier = ctx.tier
+        extra = {}
+
+        def __init__(self):
+            self.prog = prog
+
+        def ob(self, rule, where, slot, ok, msg, detail=None,
+               nontrivial=True, loc=None):
+            if slot.startswith('getall:') or slot == 'aggregates-all-classes':
+                ctx.ob('C16.D3', where, slot, ok,
+                       '[GetManagedObjects / InterfacesAdded report '
+                       'getAllProperties] ' + msg, detail, nontrivial, loc)
+            return ok
+
+        def floor(self, *a):
+            pass
+
+        def advisory(self, *a):
+            pass
+    c17.run(_Sub())
 
 
 def announce(ctx, meth, signal, table):
